@@ -11,8 +11,10 @@ import ast
 from ..affine import Aff, sym
 from ..astutil import (u, atoms, guard_map, path_atoms, stmts_in, calls_in, callee, callee_attr, reaching_def, def_value,
                        PARAM, AMBIGUOUS, get_arg, get_kw, is_none, is_const, assigns_to, block_path, raised_name, always_exits)
+from ..astutil import binds, binds_deep
 from ..cfg import CFG, solve
 from ..report import Undecided
+import copy
 
 IDX = 'gambit.util.indexing.AdvancedIndexingMixin'
 BASE = 'gambit.sigs.base'
@@ -31,6 +33,304 @@ def _root(e):
     while isinstance(e, (ast.Subscript, ast.Attribute)):
         e = e.value
     return e.id if isinstance(e, ast.Name) else None
+
+
+# ---------------------------------------------------------------------- value flow inside one function
+#
+# The rules below speak about VALUES (which expression is tested, which expression is sliced), not about the names a value
+# happens to be parked in.  `Flow.resolve` replaces a local by its defining expression when that is provably the value it has
+# at the point of use; `Flow.atoms_at` gives the path condition of a statement over such resolved expressions.
+
+PURE_CALLS = {'len', 'isinstance'}
+_COMP = (ast.ListComp, ast.SetComp, ast.DictComp, ast.GeneratorExp)
+K = '_k_'           # the iteration counter of a modelled loop / quantifier
+
+
+def _pure(e):
+    """Evaluating the expression has no effect and depends only on the current value of its free names."""
+    for n in ast.walk(e):
+        if isinstance(n, ast.Call):
+            if not (isinstance(n.func, ast.Name) and n.func.id in PURE_CALLS and not n.keywords):
+                return False
+        elif isinstance(n, _COMP + (ast.Lambda, ast.Await, ast.Yield, ast.YieldFrom, ast.NamedExpr, ast.Starred)):
+            return False
+    return True
+
+
+def _loads(e):
+    return {n.id for n in ast.walk(e) if isinstance(n, ast.Name) and isinstance(n.ctx, ast.Load)}
+
+
+class Flow:
+    def __init__(self, fn):
+        self.fn = fn
+        self.gm = guard_map(fn)
+        self.order = {}
+        self.test_owner = {}
+        for k, s in enumerate(stmts_in(fn.body)):
+            self.order[id(s)] = k
+            if isinstance(s, (ast.If, ast.While, ast.Assert)):
+                self.test_owner[id(s.test)] = s
+        # statements that may change the content of an object in place, with the root names they write through
+        self.mutations = []
+        for s in stmts_in(fn.body):
+            roots = set()
+            tg = []
+            if isinstance(s, ast.Assign):
+                tg = [t for t in s.targets if isinstance(t, (ast.Subscript, ast.Attribute))]
+            elif isinstance(s, ast.AugAssign):
+                tg = [s.target]
+            elif isinstance(s, ast.Delete):
+                tg = [t for t in s.targets if isinstance(t, (ast.Subscript, ast.Attribute))]
+            for t in tg:
+                roots.add(_root(t))
+            hdr = [s] if not isinstance(s, (ast.If, ast.For, ast.While, ast.With, ast.Try)) else \
+                ([s.test] if isinstance(s, (ast.If, ast.While)) else [s.iter] if isinstance(s, ast.For) else [i.context_expr for i in s.items] if isinstance(s, ast.With) else [])
+            for h in hdr:
+                for x in ast.walk(h):
+                    if isinstance(x, ast.Call):
+                        f = u(x.func).replace('numpy.', 'np.')
+                        out = get_kw(x, 'out')
+                        if out is not None and not is_none(out):
+                            roots.add(_root(out))
+                        if f in INPLACE_FUNCS and x.args:
+                            roots.add(_root(x.args[0]))
+                        if isinstance(x.func, ast.Attribute) and x.func.attr in INPLACE_METHODS | {'append', 'extend', 'insert', 'pop', 'remove', 'clear', 'update'}:
+                            roots.add(_root(x.func.value))
+            roots.discard(None)
+            if roots:
+                self.mutations.append((s, roots))
+
+    # ----- which statement last bound `name` before `stmt` (a simple statement, an enclosing / preceding compound one, PARAM, None)
+    def binder(self, name, stmt):
+        path = block_path(self.fn, stmt)
+        if path is None:
+            return AMBIGUOUS
+        for block, idx, owner in reversed(path):
+            for s in reversed(block[:idx]):
+                if binds(s, name) or binds_deep(s, name):
+                    return s
+            if isinstance(owner, (ast.For, ast.While, ast.AsyncFor)):
+                if isinstance(owner, (ast.For, ast.AsyncFor)) and binds(owner, name):
+                    return owner
+                if any(binds_deep(s, name) for s in block[idx:]):
+                    return owner            # reaches over the back edge
+            if isinstance(owner, (ast.With, ast.AsyncWith)) and binds(owner, name):
+                return owner
+            if isinstance(owner, ast.Try):
+                for h in owner.handlers:
+                    if h.name == name and block is h.body:
+                        return owner
+        a = self.fn.args
+        if name in [x.arg for x in a.posonlyargs + a.args + a.kwonlyargs] or (a.vararg and a.vararg.arg == name) or (a.kwarg and a.kwarg.arg == name):
+            return PARAM
+        return None
+
+    def _common_loop(self, a, b):
+        pa, pb = block_path(self.fn, a) or [], block_path(self.fn, b) or []
+        la = [o for (_, _, o) in pa if isinstance(o, (ast.For, ast.While))]
+        lb = {id(o) for (_, _, o) in pb if isinstance(o, (ast.For, ast.While))}
+        return [o for o in la if id(o) in lb]
+
+    def _unchanged(self, value, d, at):
+        """Every free name of `value` has the same binding at the definition `d` and at the use `at`, and nothing that may run
+        in between writes through one of them."""
+        names = _loads(value)
+        for x in names:
+            b1, b2 = self.binder(x, d), self.binder(x, at)
+            if b1 is AMBIGUOUS or b1 is not b2:
+                return False
+        loops = self._common_loop(d, at)
+        od, oa = self.order.get(id(d), -1), self.order.get(id(at), 1 << 30)
+        for s, roots in self.mutations:
+            if not roots & names or s is d:
+                continue
+            k = self.order.get(id(s), 0)
+            inside = any(any(x is s for x in stmts_in(lp.body)) for lp in loops)
+            if inside or od < k < oa:
+                return False
+        return True
+
+    def definition(self, name, at):
+        """(defining statement, value) when `name` has ONE simple definition `name = value` reaching `at`, else (binder, None)."""
+        d = self.binder(name, at)
+        if isinstance(d, ast.AST):
+            v = def_value(d)
+            if v is not None and not isinstance(d, ast.AugAssign):
+                return d, v
+        return d, None
+
+    def resolve(self, e, at, _depth=0, trace=None):
+        """Copy of expression `e` (evaluated at statement `at`) with locals replaced by their pure defining expressions.
+        `trace` collects the definition statements looked through (where the sub-expressions are actually evaluated)."""
+        flow = self
+
+        class T(ast.NodeTransformer):
+            def __init__(self):
+                self.bound = []
+
+            def _comp(self, node):
+                names = set()
+                for g in node.generators:
+                    names |= {n.id for n in ast.walk(g.target) if isinstance(n, ast.Name)}
+                self.bound.append(names)
+                self.generic_visit(node)
+                self.bound.pop()
+                return node
+            visit_ListComp = visit_SetComp = visit_DictComp = visit_GeneratorExp = _comp
+
+            def visit_Lambda(self, node):
+                return node
+
+            def visit_Name(self, node):
+                if not isinstance(node.ctx, ast.Load) or any(node.id in b for b in self.bound) or _depth > 12:
+                    return node
+                d, v = flow.definition(node.id, at)
+                if v is not None and _pure(v) and flow._unchanged(v, d, at):
+                    if trace is not None:
+                        trace.append(d)
+                    return flow.resolve(v, d, _depth + 1, trace)
+                return node
+        return T().visit(copy.deepcopy(e))
+
+    def deref(self, e, at):
+        """The expression a name stands for (any expression, evaluated once, nothing in between touching its inputs); else `e`."""
+        seen = 0
+        while isinstance(e, ast.Name) and seen < 8:
+            d, v = self.definition(e.id, at)
+            if v is None or not self._unchanged(v, d, at):
+                break
+            uses = [n for n in ast.walk(self.fn) if isinstance(n, ast.Name) and n.id == e.id and isinstance(n.ctx, ast.Load)]
+            if not _pure(v) and len(uses) != 1:
+                break
+            e, at = v, d
+            seen += 1
+        return e
+
+    def atoms_at(self, stmt):
+        """Path condition of `stmt` as atoms over resolved expressions (each test resolved where it is evaluated)."""
+        out = set()
+        for t, p in self.gm[stmt]:
+            owner = self.test_owner.get(id(t))
+            # (a loop test is evaluated again after the body ran: names in it are left as written)
+            a = atoms(self.resolve(t, owner) if owner is not None and not isinstance(owner, ast.While) else t, p)
+            if a:
+                out |= a
+        return out
+
+    def quantified(self, stmt):
+        """Existential facts in the path condition of `stmt`: `not all(P(v) for v in it)` / `any(P(v) for v in it)` hold
+        -> [(iterable, target name, atoms that hold for some element)]."""
+        out = []
+        for t0, p in self.gm[stmt]:
+            t = t0
+            while isinstance(t, ast.UnaryOp) and isinstance(t.op, ast.Not):
+                t, p = t.operand, not p
+            if not (isinstance(t, ast.Call) and isinstance(t.func, ast.Name) and t.func.id in ('all', 'any') and len(t.args) == 1 and not t.keywords):
+                continue
+            g = t.args[0]
+            if not (isinstance(g, (ast.GeneratorExp, ast.ListComp)) and len(g.generators) == 1 and isinstance(g.generators[0].target, ast.Name)):
+                continue
+            if (t.func.id == 'all') == p:
+                continue                    # a universal fact: says nothing about one offending element
+            gen = g.generators[0]
+            a = atoms(g.elt, t.func.id == 'any')
+            if a is None:
+                continue
+            ok = True
+            for c in gen.ifs:
+                ca = atoms(c, True)
+                if ca is None:
+                    ok = False
+                    break
+                a = a | ca
+            if ok:
+                owner = self.test_owner.get(id(t0))
+                it = self.resolve(gen.iter, owner) if owner is not None else gen.iter
+                out.append((it, gen.target.id, a))
+        return out
+
+
+def _subst_names(e, mapping):
+    class T(ast.NodeTransformer):
+        def visit_Name(self, node):
+            if node.id in mapping and isinstance(node.ctx, ast.Load):
+                return copy.deepcopy(mapping[node.id])
+            return node
+    return T().visit(copy.deepcopy(e))
+
+
+def _kth(x, off=0):
+    idx = ast.Name(id=K, ctx=ast.Load()) if off == 0 else ast.BinOp(left=ast.Name(id=K, ctx=ast.Load()), op=ast.Add(), right=ast.Constant(value=off))
+    return ast.Subscript(value=copy.deepcopy(x), slice=idx, ctx=ast.Load())
+
+
+def _element(x):
+    """k-th element produced by iterating `x` (a sequence): x[k]; for x = e[a:] / e[:-b] / e[a:-b] it is e[a + k]."""
+    if isinstance(x, ast.Call) and isinstance(x.func, ast.Name) and x.func.id == 'zip' and not x.keywords:
+        return ast.Tuple(elts=[_element(a) for a in x.args], ctx=ast.Load())
+    if isinstance(x, ast.Call) and isinstance(x.func, ast.Name) and x.func.id == 'enumerate' and len(x.args) == 1 and not x.keywords:
+        return ast.Tuple(elts=[ast.Name(id=K, ctx=ast.Load()), _element(x.args[0])], ctx=ast.Load())
+    if isinstance(x, ast.Call) and isinstance(x.func, ast.Name) and x.func.id == 'range' and len(x.args) == 1 and not x.keywords:
+        return ast.Name(id=K, ctx=ast.Load())
+    if isinstance(x, ast.Subscript) and isinstance(x.slice, ast.Slice) and x.slice.step is None:
+        lo = x.slice.lower
+        if lo is None:
+            return _kth(x.value)
+        if isinstance(lo, ast.Constant) and isinstance(lo.value, int) and lo.value >= 0:
+            return _kth(x.value, lo.value)
+    return _kth(x)
+
+
+def _length(x, env):
+    """Number of elements iterating `x` yields, as an affine form over len(...) symbols (None: unknown)."""
+    if isinstance(x, ast.Call) and isinstance(x.func, ast.Name) and not x.keywords:
+        if x.func.id == 'zip' and x.args:
+            ls = [_length(a, env) for a in x.args]
+            if any(l is None for l in ls):
+                return None
+            best = ls[0]
+            for l in ls[1:]:
+                d = l.sub(best)
+                if not d.is_const():
+                    return None
+                if d.const < 0:
+                    best = l
+            return best
+        if x.func.id == 'enumerate' and len(x.args) == 1:
+            return _length(x.args[0], env)
+        if x.func.id == 'range' and len(x.args) == 1:
+            a = Aff.try_of(x.args[0])
+            return a.subst(env) if a is not None else None
+        return None
+    if isinstance(x, ast.Subscript) and isinstance(x.slice, ast.Slice):
+        if x.slice.step is not None:
+            return None
+        base = _length(x.value, env)
+        lo, hi = x.slice.lower, x.slice.upper
+        cut = 0
+        for b, neg in ((lo, False), (hi, True)):
+            if b is None:
+                continue
+            v = b.value if isinstance(b, ast.Constant) else (-b.operand.value if isinstance(b, ast.UnaryOp) and isinstance(b.op, ast.USub) and isinstance(b.operand, ast.Constant) else None)
+            if not isinstance(v, int) or (v < 0) != neg:
+                return None
+            cut += abs(v)
+        return base.plus(-cut) if base is not None else None
+    if isinstance(x, (ast.Name, ast.Attribute)):
+        a = Aff.try_of(ast.Call(func=ast.Name(id='len', ctx=ast.Load()), args=[x], keywords=[]))
+        return a.subst(env) if a is not None else None
+    return None
+
+
+def _bind_target(target, elem, mapping):
+    """Bind the loop target structure to the element structure; False when they do not fit."""
+    if isinstance(target, ast.Name):
+        mapping[target.id] = elem
+        return True
+    if isinstance(target, (ast.Tuple, ast.List)) and isinstance(elem, ast.Tuple) and len(target.elts) == len(elem.elts):
+        return all(_bind_target(t, e, mapping) for t, e in zip(target.elts, elem.elts))
+    return False
 
 
 def alias_analysis(ctx, fi, rule='X2'):
@@ -188,8 +488,8 @@ def control(self, index):
 """
 
 
-def _ret_atoms(gm, r):
-    return path_atoms(gm[r])
+def _ret_atoms(fl, r):
+    return fl.atoms_at(r)
 
 
 def check_dispatch(ctx):
@@ -197,10 +497,19 @@ def check_dispatch(ctx):
     fi = m.func(f'{IDX}.__getitem__')
     rep.functions.add(fi.qualname)
     fn = fi.node
-    gm = guard_map(fn)
+    fl = Flow(fn)
+    gm = fl.gm
     ip = fi.params()[1]
     rets = [s for s in stmts_in(fn.body) if isinstance(s, ast.Return)]
     raises = [s for s in stmts_in(fn.body) if isinstance(s, ast.Raise)]
+    # the index may only be rebound to something the rules can evaluate (array conversion / copy / arithmetic), not to the
+    # result of a call they cannot look into
+    opaque = []
+    for s in stmts_in(fn.body):
+        if isinstance(s, ast.Assign) and any(u(t) == ip for t in s.targets) and isinstance(s.value, ast.Call):
+            f = u(s.value.func).replace('numpy.', 'np.')
+            if not (f in FRESH_CALLS | ALIAS_CALLS or (isinstance(s.value.func, ast.Attribute) and _root(s.value.func) == ip)):
+                opaque.append(f)
 
     def ret_calling(name):
         return [r for r in rets if isinstance(r.value, ast.Call) and u(r.value.func) == f'self.{name}']
@@ -209,49 +518,57 @@ def check_dispatch(ctx):
         return [('true', f'isinstance({ip}, {t})') for t in types]
     # int
     r = ret_calling('_getitem_int')
-    at = _ret_atoms(gm, r[0]) if r else set()
+    at = _ret_atoms(fl, r[0]) if r else set()
     okint = len(r) == 1 and any(a in at for a in isinst(['(int, np.integer)', '(np.integer, int)'])) and u(r[0].value.args[0]) == f'self._check_index({ip})'
     rep.add('X1', fi.site(r[0] if r else fn), 'an integer index (Python or NumPy) is bounds-checked, normalised and delegated', okint, expected=f'_getitem_int(_check_index({ip})) under isinstance({ip}, (int, np.integer))',
             found=(u(r[0].value) if r else None, sorted(at)), stmt='int dispatch')
     # slice
     r = ret_calling('_getitem_slice')
-    at = _ret_atoms(gm, r[0]) if r else set()
+    at = _ret_atoms(fl, r[0]) if r else set()
     oks = len(r) == 1 and ('true', f'isinstance({ip}, slice)') in at and ('ne', '0', f'{ip}.step') in at and [u(a) for a in r[0].value.args] == [ip]
     rep.add('X1', fi.site(r[0] if r else fn), 'a slice with non-zero step is delegated unchanged', oks, expected=f'_getitem_slice({ip}) under isinstance(slice) and step != 0', found=(u(r[0].value) if r else None, sorted(at)),
             stmt='slice dispatch')
-    zr = [x for x in raises if ('eq', '0', f'{ip}.step') in path_atoms(gm[x])]
+    zr = [x for x in raises if ('eq', '0', f'{ip}.step') in fl.atoms_at(x)]
     rep.add('X1', fi.site(zr[0] if zr else fn), 'a zero step raises ValueError (like a list)', len(zr) == 1 and raised_name(zr[0]) == 'ValueError', expected='raise ValueError', found=[raised_name(x) for x in zr],
             stmt='zero step')
     tr = [x for x in raises if raised_name(x) == 'TypeError']
     okt = False
+    comps = sorted([f'{ip}.start', f'{ip}.stop', f'{ip}.step'])
+
+    def offending(at, lv):
+        # the element is neither None nor an integer
+        return ('isnot', 'None', lv) in at and any(a[0] == 'false' and a[1].startswith(f'isinstance({lv}, ') and 'int' in a[1] for a in at)
     for x in tr:
+        # raised for SOME component that is neither None nor an integer: inside a loop over the components, or under an
+        # existential condition over them (`not all(ok(c) for c in ...)`, `any(bad(c) for c in ...)`)
         bp = block_path(fn, x)
         loop = next((o for (_, _, o) in bp if isinstance(o, ast.For)), None)
-        if loop is not None and sorted(u(e) for e in getattr(loop.iter, 'elts', [])) == sorted([f'{ip}.start', f'{ip}.stop', f'{ip}.step']):
-            at = path_atoms(gm[x])
-            lv = u(loop.target)
-            okt = ('isnot', 'None', lv) in at and any(a[0] == 'false' and a[1].startswith(f'isinstance({lv}, ') and 'int' in a[1] for a in at)
+        if loop is not None and sorted(u(e) for e in getattr(fl.resolve(loop.iter, loop), 'elts', [])) == comps and isinstance(loop.target, ast.Name):
+            okt = okt or offending(fl.atoms_at(x), u(loop.target))
+        for it, lv, qa in fl.quantified(x):
+            if sorted(u(e) for e in getattr(it, 'elts', [])) == comps:
+                okt = okt or offending(qa, lv)
     rep.add('X1', fi.site(tr[0] if tr else fn), 'non-integer slice components raise TypeError', okt, expected='raise TypeError for each of start/stop/step that is neither None nor an integer', found=[u(x)[:50] for x in tr],
             stmt='slice component types')
     # arrays
     r = ret_calling('_getitem_bool_array')
-    at = _ret_atoms(gm, r[0]) if r else set()
+    at = _ret_atoms(fl, r[0]) if r else set()
     okb = len(r) == 1 and ('eq', "'b'", f'{ip}.dtype.kind') in at and ('eq', f'len({ip})', 'len(self)') in at and ('eq', '1', f'{ip}.ndim') in at
     rep.add('X1', fi.site(r[0] if r else fn), 'a boolean mask of the right length and dimension is delegated', okb, expected="kind == 'b', ndim == 1, len(index) == len(self)", found=sorted(at), stmt='bool dispatch')
     r = ret_calling('_getitem_int_array')
-    at = _ret_atoms(gm, r[0]) if r else set()
+    at = _ret_atoms(fl, r[0]) if r else set()
     oki = len(r) == 1 and any(a[0] == 'in' and a[1] == f'{ip}.dtype.kind' and a[2] in ("'iu'", "'ui'") for a in at) and ('eq', '1', f'{ip}.ndim') in at
     rep.add('X1', fi.site(r[0] if r else fn), 'an integer array of dimension one is delegated', oki, expected="kind in 'iu', ndim == 1", found=sorted(at), stmt='int-array dispatch')
     if r:
         # every element bounds-checked before the delegation
-        loops = [s for s in stmts_in(fn.body) if isinstance(s, ast.For) and u(s.iter) == ip and s.lineno < r[0].lineno]
-        okc = any(len(lp.body) == 1 and isinstance(lp.body[0], ast.Expr) and u(lp.body[0].value) == f'self._check_index({u(lp.target)})' and path_atoms(gm[lp]) <= at for lp in loops)
+        loops = [s for s in stmts_in(fn.body) if isinstance(s, ast.For) and u(s.iter) == ip and fl.order[id(s)] < fl.order[id(r[0])]]
+        okc = any(len(lp.body) == 1 and isinstance(lp.body[0], ast.Expr) and u(lp.body[0].value) == f'self._check_index({u(lp.target)})' and fl.atoms_at(lp) <= at for lp in loops)
         rep.add('X1', fi.site(loops[0] if loops else r[0]), 'every element of an integer index array is bounds-checked before use', okc, expected=f'for i in {ip}: self._check_index(i)', found=[u(lp)[:60] for lp in loops],
                 stmt='element bounds check')
     deleg = [r_ for r_ in rets if isinstance(r_.value, ast.Call) and u(r_.value.func) in ('self._getitem_int', 'self._getitem_slice', 'self._getitem_bool_array', 'self._getitem_int_array')]
     rep.account_returns('X1', fi, deleg, 'selection')
     ir = [x for x in raises if raised_name(x) == 'IndexError']
-    conds = {frozenset(path_atoms(gm[x])) for x in ir}
+    conds = {frozenset(fl.atoms_at(x)) for x in ir}
     nd = any(('ne', '1', f'{ip}.ndim') in c for c in conds)
     ln = any(('ne', f'len({ip})', 'len(self)') in c for c in conds)
     rep.add('X1', fi.site(), 'multi-dimensional index arrays and masks of the wrong length raise IndexError', nd and ln, expected='ndim != 1 / length mismatch -> IndexError', found=[sorted(c) for c in conds], stmt='array shape errors')
@@ -260,8 +577,9 @@ def check_dispatch(ctx):
     rep.add('X1', fi.site(last), 'the dispatch is exhaustive: every path ends in a return or a raise (other dtypes raise IndexError)', exhaustive, expected='final else: raise IndexError', found=u(last)[:40], stmt='exhaustive')
     # empty-sequence special case keeps integer dtype
     emp = [s for s in stmts_in(fn.body) if isinstance(s, ast.Assign) and u(s.targets[0]) == ip and isinstance(s.value, ast.Call) and u(s.value.func) == 'np.empty']
-    oke = len(emp) == 1 and ('eq', '0', f'len({ip})') in path_atoms(gm[emp[0]]) and u(get_arg(emp[0].value, 1, 'dtype')) == 'int'
-    rep.add('X1', fi.site(emp[0] if emp else fn), 'an empty index sequence selects nothing (integer dtype forced)', oke, expected='np.empty(0, dtype=int) under len(index) == 0', found=[u(e) for e in emp], stmt='empty sequence')
+    oke = len(emp) == 1 and ('eq', '0', f'len({ip})') in fl.atoms_at(emp[0]) and u(get_arg(emp[0].value, 1, 'dtype')) == 'int'
+    if oke or not opaque:
+        rep.add('X1', fi.site(emp[0] if emp else fn), 'an empty index sequence selects nothing (integer dtype forced)', oke, expected='np.empty(0, dtype=int) under len(index) == 0', found=[u(e) for e in emp], stmt='empty sequence')
     conv = [c for c in calls_in(fn) if u(c.func) in ('np.asarray', 'np.array')]
     okv = False
     for c in conv:
@@ -269,7 +587,9 @@ def check_dispatch(ctx):
         bp = block_path(fn, st)
         tr_ = next((o for (_, _, o) in bp if isinstance(o, ast.Try)), None)
         okv = okv or (tr_ is not None and any(any(isinstance(x, ast.Raise) and raised_name(x) == 'IndexError' for x in h.body) for h in tr_.handlers))
-    rep.add('X1', fi.site(conv[0] if conv else fn), 'an object that cannot be interpreted as an index array raises IndexError', okv, expected='np.asarray failure -> IndexError', found=[u(c) for c in conv], stmt='conversion error')
+    if okv or not opaque:
+        rep.add('X1', fi.site(conv[0] if conv else fn), 'an object that cannot be interpreted as an index array raises IndexError', okv, expected='np.asarray failure -> IndexError', found=[u(c) for c in conv], stmt='conversion error')
+    undecided = (not oke or not okv) and opaque
     # negative conversion adds len(self) exactly where negative
     adds = [c for c in calls_in(fn) if u(c.func) == 'np.add'] + [c for c in calls_in(fn) if u(c.func) == 'np.where']
     okn = False
@@ -284,6 +604,8 @@ def check_dispatch(ctx):
     isn = [s for s in stmts_in(fn.body) if isinstance(s, ast.Assign) and u(s.targets[0]) == negname]
     okn = okn and len(isn) == 1 and atoms(isn[0].value) == {('lt', ip, '0')}
     rep.add('X1', fi.site(adds[0] if adds else fn), 'negative entries are converted by adding len(self), others untouched', okn, expected='index + len(self) where index < 0', found=[u(c) for c in adds], stmt='negative conversion')
+    rep.require(not undecided, f'__getitem__: the index is replaced by the result of {", ".join(opaque)}(...), a call the dispatch rules cannot look into '
+                '(helper not expanded): the empty-sequence / conversion-error handling cannot be located')
 
 
 def check_alias(ctx):
@@ -312,21 +634,82 @@ def check_alias(ctx):
     rep.info['inplace_write_sites'] = total
 
 
+def _implies_lt(at, a, b):
+    """The path condition `at` implies a < b (affine forms): some fact x < y / x <= y with (b - a) - (y - x) a large enough constant."""
+    if a is None or b is None:
+        return False
+    gap = b.sub(a)
+    if gap.is_const():
+        return gap.const >= 1
+    for f in at:
+        if f[0] in ('lt', 'le') and len(f) == 3:
+            try:
+                x, y = Aff.try_of(ast.parse(f[1], mode='eval').body), Aff.try_of(ast.parse(f[2], mode='eval').body)
+            except SyntaxError:
+                continue
+            if x is None or y is None:
+                continue
+            d = gap.sub(y.sub(x))
+            if d.is_const() and d.const >= (0 if f[0] == 'lt' else 1):
+                return True
+    return False
+
+
+def _aff_ast(a):
+    terms = sorted(a.terms.items())
+    if len(terms) == 1 and terms[0][1] == 1 and '(' not in terms[0][0] and '[' not in terms[0][0]:
+        base = ast.parse(terms[0][0], mode='eval').body
+        if a.const == 0:
+            return base
+        return ast.BinOp(left=base, op=ast.Add() if a.const > 0 else ast.Sub(), right=ast.Constant(value=abs(int(a.const))))
+    return None
+
+
+def _sections(e, at, inrange):
+    """Rewrite the ends of a section of the bounds array: self.bounds[a:b][0] -> self.bounds[a], self.bounds[a:b][-1] ->
+    self.bounds[b - 1].  Valid only for a non-empty section that is not clipped: a < b follows from the path condition `at`,
+    and a and b - 1 are normalised positions (results of slice.indices(len(self)) with a positive step, so within
+    0..len(self), the valid positions of the bounds array).  Anything else is left as written."""
+    class T(ast.NodeTransformer):
+        def visit_Subscript(self, node):
+            self.generic_visit(node)
+            inner = node.value
+            if isinstance(inner, ast.Subscript) and isinstance(inner.slice, ast.Slice) and inner.slice.step is None and u(inner.value) == 'self.bounds' \
+                    and inner.slice.lower is not None and inner.slice.upper is not None and not isinstance(node.slice, ast.Slice):
+                k = Aff.try_of(node.slice)
+                a, b = Aff.try_of(inner.slice.lower), Aff.try_of(inner.slice.upper)
+                if k is None or not k.is_const() or k.const not in (0, -1) or a is None or b is None:
+                    return node
+                last = b.plus(-1)
+                if not (_implies_lt(at, a, b) and str(a) in inrange and str(last) in inrange):
+                    return node
+                pos = _aff_ast(a if k.const == 0 else last)
+                if pos is None:
+                    return node
+                return ast.Subscript(value=inner.value, slice=pos, ctx=ast.Load())
+            return node
+    return ast.fix_missing_locations(T().visit(e)) if e is not None else None
+
+
 def check_arith(ctx):
     rep, m = ctx.rep, ctx.model
     # X3
     fi = m.func(f'{IDX}._check_index')
     rep.functions.add(fi.qualname)
     ip = fi.params()[1]
-    gm = guard_map(fi.node)
+    fl = Flow(fi.node)
     defs = [s for s in fi.node.body if isinstance(s, ast.Assign)]
     rets = [s for s in stmts_in(fi.node.body) if isinstance(s, ast.Return)]
     rep.require(len(rets) == 1, '_check_index: expected one return')
-    rv = u(rets[0].value)
-    conv = next((s.value for s in defs if u(s.targets[0]) == rv), None)
+    # the returned VALUE, with locals (len(self) read once, the sign test bound to a name, ...) replaced by what they stand for
+    if isinstance(rets[0].value, ast.Name):
+        d, v = fl.definition(rets[0].value.id, rets[0])
+        rep.require(v is not None or d in (PARAM, None), f'_check_index: the returned name {rets[0].value.id} is not defined by one assignment (conditional / augmented rebinding): conversion cannot be evaluated')
+    conv = fl.resolve(rets[0].value, rets[0])
+    rv = u(conv)
     okc = isinstance(conv, ast.IfExp) and atoms(conv.test) == {('lt', ip, '0')} and Aff.try_of(conv.body) == sym(ip).add(sym('len(self)')) and u(conv.orelse) == ip
     rep.add('X3', fi.site(defs[0] if defs else rets[0]), 'a negative index counts from the end: i + len(self) when i < 0', okc, expected=f'{ip} + len(self) if {ip} < 0 else {ip}', found=u(conv), stmt='negative index')
-    at = path_atoms(gm[rets[0]])
+    at = fl.atoms_at(rets[0])
     rep.add('X3', fi.site(rets[0]), 'the normalised index is returned only when 0 <= i2 < len(self)', at == {('le', '0', rv), ('lt', rv, 'len(self)')}, expected=f'0 <= {rv} < len(self)', found=sorted(at), stmt='bounds')
     rs = [s for s in stmts_in(fi.node.body) if isinstance(s, ast.Raise)]
     rep.add('X3', fi.site(rs[0] if rs else rets[0]), 'anything else raises IndexError', len(rs) == 1 and raised_name(rs[0]) == 'IndexError', expected='raise IndexError', found=[raised_name(r) for r in rs], stmt='out of range')
@@ -371,13 +754,22 @@ def check_arith(ctx):
     oksl = len(slow) == 1 and u(slow[0].value) == f'super()._getitem_slice({sp})'
     rep.add('X4', fsl.site(slow[0] if slow else None), 'every other slice goes through the generic index-array path', oksl, expected=f'super()._getitem_slice({sp})', found=[u(r.value) for r in slow], stmt='slow path')
     args = fast[0].value.args
-
-    def defn(e):
-        if isinstance(e, ast.Name):
-            d = reaching_def(fsl.node, e.id, fast[0])
-            return def_value(d) if d not in (None, PARAM, AMBIGUOUS) else None
-        return e
-    vv, bv = defn(args[0]), defn(args[1])
+    fls = Flow(fsl.node)
+    # the VALUES handed to from_arrays: locals replaced by what they stand for (an offset read once, a section of the bounds
+    # array read once and then indexed at its ends)
+    inrange = {start, stop} if ('eq', '1', step) in at else set()
+    vv = bv = None
+    if len(args) >= 2:
+        out2 = []
+        for a in args[:2]:
+            seen = []
+            r = fls.resolve(a, fast[0], trace=seen)
+            # facts that hold wherever a part of the value is computed (a local may be computed outside the guarded branch)
+            facts = set(at)
+            for d in seen:
+                facts &= path_atoms(gms[d])
+            out2.append(_sections(r, facts, inrange))
+        vv, bv = out2
     okv = isinstance(vv, ast.Subscript) and u(vv.value) == 'self.values' and isinstance(vv.slice, ast.Slice) and vv.slice.step is None \
         and u(vv.slice.lower) == f'self.bounds[{start}]' and u(vv.slice.upper) == f'self.bounds[{stop}]'
     rep.add('X4', fsl.site(fast[0]), 'values of the sub-collection are values[bounds[start] : bounds[stop]]', okv, expected=f'self.values[self.bounds[{start}]:self.bounds[{stop}]]', found=u(vv), stmt='slice values')
@@ -411,20 +803,52 @@ def check_subcollections(ctx):
     un = [c for c in calls_in(fia.node) if u(c.func).endswith('uninitialized')]
     oku = len(un) == 1 and u(get_arg(un[0], 1, 'kmerspec')) == 'self.kmerspec' and u(get_arg(un[0], 2, 'dtype')) in ('self.values.dtype', 'self.dtype')
     rep.add('X5', fia.site(un[0] if un else None), 'an index-array selection keeps k-mer parameters and integer type', oku, expected='uninitialized(sizes, self.kmerspec, dtype=self.values.dtype)', found=[u(c) for c in un], stmt='int-array kmerspec/dtype')
+    fla = Flow(fia.node)
+    out_name = u(next((s.targets[0] for s in fia.node.body if isinstance(s, ast.Assign) and un and s.value is un[0]), None)) if un else None
     if un:
+        un_stmt = next((s for s in stmts_in(fia.node.body) if any(x is un[0] for x in ast.walk(s)) and not isinstance(s, (ast.If, ast.For, ast.While, ast.With, ast.Try))), None)
         sizes = get_arg(un[0], 0, 'lengths')
-        oks = isinstance(sizes, ast.ListComp) and u(sizes.generators[0].iter) == ip and u(sizes.elt) == f'self.sizeof({u(sizes.generators[0].target)})'
+        if un_stmt is not None and sizes is not None and sizes is not Ellipsis:
+            sizes = fla.deref(sizes, un_stmt)       # the list may be bound to a local first
+        oks = isinstance(sizes, ast.ListComp) and len(sizes.generators) == 1 and not sizes.generators[0].ifs and u(sizes.generators[0].iter) == ip \
+            and u(sizes.elt) == f'self.sizeof({u(sizes.generators[0].target)})'
         rep.add('X5', fia.site(un[0]), 'slot k of the result is sized for the k-th requested signature', oks, expected=f'[self.sizeof(i) for i in {ip}]', found=u(sizes), stmt='result sizes')
     loops = [s for s in fia.node.body if isinstance(s, ast.For)]
-    okl = False
-    if len(loops) == 1 and isinstance(loops[0].iter, ast.Call) and u(loops[0].iter.func) == 'enumerate' and [u(a) for a in loops[0].iter.args] == [ip]:
-        k, idx = (u(e) for e in loops[0].target.elts)
-        cps = [c for c in calls_in(loops[0]) if u(c.func) == 'np.copyto']
-        okl = len(cps) == 1 and u(cps[0].args[0]).endswith(f'[{k}]') and u(cps[0].args[1]) == f'self._getitem_int({idx})'
-    rep.add('X5', fia.site(loops[0] if loops else None), 'slot k receives the signature at the k-th requested index (order and repeats preserved)', okl, expected='for k, idx in enumerate(indices): copyto(out[k], self._getitem_int(idx))',
-            found=[u(l)[:80] for l in loops], stmt='fill order')
+    okl, why = False, None
+    if len(loops) == 1 and out_name is not None and not loops[0].orelse:
+        # Model of the fill loop: in iteration k every loop variable is an expression in k (enumerate / zip / range / direct
+        # iteration; e[a:] yields e[a + k]).  Slot k of the result is out[k] = out.values[out.bounds[k] : out.bounds[k + 1]]
+        # (X4 element); it must receive self._getitem_int(<k-th requested index>), and the loop must run over every slot.
+        lp = loops[0]
+        it = fla.resolve(lp.iter, lp)
+        mapping = {}
+        fits = _bind_target(lp.target, _element(it), mapping)
+        cps = [c for c in calls_in(lp) if u(c.func) == 'np.copyto']
+        if fits and len(cps) == 1 and len(cps[0].args) >= 2:
+            cst = next((s for s in lp.body if isinstance(s, ast.Expr) and s.value is cps[0]), None)
+            rep.require(cst is not None and not any(isinstance(x, (ast.Break, ast.Continue, ast.Return)) for x in ast.walk(lp)),
+                        '_getitem_int_array: the copy into the result is not an unconditional statement of the fill loop (conditional copy / break / continue)')
+            dst = _subst_names(fla.resolve(cps[0].args[0], cst), mapping)
+            src = _subst_names(fla.resolve(cps[0].args[1], cst), mapping)
+            kk = sym(K)
+
+            def bound_at(e, off):
+                return isinstance(e, ast.Subscript) and u(e.value) == f'{out_name}.bounds' and not isinstance(e.slice, ast.Slice) and Aff.try_of(e.slice) == kk.plus(off)
+            okd = isinstance(dst, ast.Subscript) and ((u(dst.value) == out_name and not isinstance(dst.slice, ast.Slice) and Aff.try_of(dst.slice) == kk)
+                                                      or (u(dst.value) == f'{out_name}.values' and isinstance(dst.slice, ast.Slice) and dst.slice.step is None
+                                                          and bound_at(dst.slice.lower, 0) and bound_at(dst.slice.upper, 1)))
+            oksrc = isinstance(src, ast.Call) and u(src.func) == 'self._getitem_int' and len(src.args) == 1 and not src.keywords and isinstance(src.args[0], ast.Subscript) \
+                and u(src.args[0].value) == ip and not isinstance(src.args[0].slice, ast.Slice) and Aff.try_of(src.args[0].slice) == kk
+            # every slot is visited: the loop runs len(indices) times (the result has one slot per index, one more bound)
+            n = sym('n')
+            env = {f'len({ip})': n, f'len({out_name})': n, f'len({out_name}.bounds)': n.plus(1)}
+            cnt = _length(it, env)
+            okl = okd and oksrc and cnt == n
+            why = dict(slot=u(dst), value=u(src), iterations=str(cnt))
+            rep.require(not (okd and oksrc) or cnt is not None, f'_getitem_int_array: cannot determine how many times the fill loop `for ... in {u(lp.iter)[:60]}` runs')
+    rep.add('X5', fia.site(loops[0] if loops else None), 'slot k receives the signature at the k-th requested index (order and repeats preserved)', okl, expected=f'in iteration k: copyto(out[k], self._getitem_int({ip}[k])), k = 0 .. len({ip}) - 1',
+            found=why or [u(l)[:80] for l in loops], stmt='fill order')
     fia_rets = [s for s in stmts_in(fia.node.body) if isinstance(s, ast.Return)]
-    out_name = u(next((s.targets[0] for s in fia.node.body if isinstance(s, ast.Assign) and un and s.value is un[0]), None)) if un else None
     rep.account_returns('X5', fia, [r for r in fia_rets if u(r.value) == out_name and r is fia.node.body[-1]], 'index-array selection')
     rep.account_returns('X4', fsl, [s for s in stmts_in(fsl.node.body) if isinstance(s, ast.Return) and (any(x in fast for x in ast.walk(s)) or u(s.value).startswith('super()._getitem_slice('))], 'slice selection')
     fl = m.func(f'{BASE}.SignatureList._getitem_int_array')
@@ -477,6 +901,72 @@ def check_mutators(ctx):
     rep.add('X6', L.site(), 'no other collection class defines a mutator (they are immutable sequences)', not muts, expected='none', found=muts, stmt='mutators elsewhere')
 
 
+def _is_false_return(body):
+    return len(body) == 1 and isinstance(body[0], ast.Return) and is_const(body[0].value, False)
+
+
+def _forall(target, it, test, pol):
+    """('forall', atoms over the k-th elements) for `test` having polarity `pol` on every element of `it`; None if not conjunctive."""
+    mapping = {}
+    if not _bind_target(target, _element(it), mapping):
+        return None
+    a = atoms(_subst_names(test, mapping), pol)
+    return None if a is None else ('forall', a)
+
+
+def _expr_conjuncts(v):
+    if isinstance(v, ast.BoolOp) and isinstance(v.op, ast.And):
+        out = []
+        for x in v.values:
+            c = _expr_conjuncts(x)
+            if c is None:
+                return None
+            out += c
+        return out
+    if is_const(v, True):
+        return []
+    if is_const(v, False):
+        return [('never',)]
+    if isinstance(v, ast.Call) and isinstance(v.func, ast.Name) and v.func.id == 'all' and len(v.args) == 1 and not v.keywords:
+        g = v.args[0]
+        if isinstance(g, ast.Call) and isinstance(g.func, ast.Name) and g.func.id == 'map' and len(g.args) >= 2 and not g.keywords:
+            # all(map(f, A, B)) = f(A[k], B[k]) for every k
+            call = ast.Call(func=g.args[0], args=[_element(a) for a in g.args[1:]], keywords=[])
+            return [('forall', {('true', u(call))})]
+        if isinstance(g, (ast.GeneratorExp, ast.ListComp)) and len(g.generators) == 1 and not g.generators[0].ifs:
+            c = _forall(g.generators[0].target, g.generators[0].iter, g.elt, True)
+            return None if c is None else [c]
+        return None
+    a = atoms(v, True)
+    return None if a is None else [('cond', a)]
+
+
+def _conjunction(fn):
+    """Ordered conjuncts of a boolean function written as guard clauses / loops that return False, ending in `return <rest>`.
+    None when a statement is outside that vocabulary."""
+    body = [s for s in fn.body if not (isinstance(s, ast.Expr) and isinstance(s.value, ast.Constant))]
+    out = []
+    for i, s in enumerate(body):
+        if isinstance(s, ast.If) and not s.orelse and _is_false_return(s.body):
+            a = atoms(s.test, False)
+            if a is None:
+                return None
+            out.append(('cond', a))
+        elif isinstance(s, ast.For) and not s.orelse and len(s.body) == 1 and isinstance(s.body[0], ast.If) and not s.body[0].orelse and _is_false_return(s.body[0].body):
+            c = _forall(s.target, s.iter, s.body[0].test, False)
+            if c is None:
+                return None
+            out.append(c)
+        elif isinstance(s, ast.Return) and i == len(body) - 1 and s.value is not None:
+            c = _expr_conjuncts(s.value)
+            if c is None:
+                return None
+            return out + c
+        else:
+            return None
+    return None
+
+
 def check_equality(ctx):
     rep, m = ctx.rep, ctx.model
     fe = m.func(f'{BASE}.AbstractSignatureArray.__eq__')
@@ -496,11 +986,15 @@ def check_equality(ctx):
     fs = m.func(f'{BASE}.sigarray_eq')
     rep.functions.add(fs.qualname)
     a1, a2 = fs.params()[:2]
-    rets = [s for s in fs.node.body if isinstance(s, ast.Return)]
-    v = rets[0].value if rets else None
-    oks = isinstance(v, ast.BoolOp) and isinstance(v.op, ast.And) and {u(x) for x in v.values} == {f'len({a1}) == len({a2})', f'all(map(np.array_equal, {a1}, {a2}))'} \
-        and u(v.values[0]) == f'len({a1}) == len({a2})'
-    rep.add('X7', fs.site(), 'sequence equality: equal lengths first, then every signature array equal', oks, expected=f'len({a1}) == len({a2}) and all(map(np.array_equal, {a1}, {a2}))', found=u(v), stmt='sigarray_eq')
+    # The function as an ordered conjunction: the result is True exactly when every conjunct holds, evaluated in order
+    # (`A and B` expression, guard clauses `if not A: return False`, a loop `for ..: if not P: return False`, all(...)).
+    conj = _conjunction(fs.node)
+    rep.require(conj is not None, 'sigarray_eq: body is not a conjunction the rule can evaluate (expected `A and B`, guard clauses returning False, all(...) / a loop returning False, final return)')
+    shown = [c[0] if c[0] == 'never' else (c[0], sorted(c[1])) for c in conj]
+    eqs = {('true', f'np.array_equal({a1}[{K}], {a2}[{K}])'), ('true', f'np.array_equal({a2}[{K}], {a1}[{K}])')}
+    oks = len(conj) == 2 and conj[0][0] == 'cond' and conj[0][1] == {('eq', f'len({a1})', f'len({a2})')} \
+        and conj[1][0] == 'forall' and len(conj[1][1]) == 1 and conj[1][1] <= eqs
+    rep.add('X7', fs.site(), 'sequence equality: equal lengths first, then every signature array equal', oks, expected=f'len({a1}) == len({a2}) and for every k: np.array_equal({a1}[k], {a2}[k])', found=shown, stmt='sigarray_eq')
     ks = m.cls('gambit.kmers.KmerSpec')
     eqf = {name: get_kw(v, 'eq') for name, v in ks.class_attrs.items() if isinstance(v, ast.Call) and u(v.func) == 'attrib'}
     compared = sorted(n for n, e in eqf.items() if e is None or not is_const(e, False))
@@ -529,6 +1023,23 @@ from ..variants import V  # noqa: E402
 
 _I = 'src/gambit/util/indexing.py'
 _B = 'src/gambit/sigs/base.py'
+_SLICE_LOOP = "\t\t\tfor i in [index.start, index.stop, index.step]:\n\t\t\t\tif i is not None and not isinstance(i, (int, np.integer)):\n\t\t\t\t\traise TypeError('Slice indices must be integers or None')\n"
+_INT_BRANCH = ("\t\t# Integer array\n\t\telif index.dtype.kind in 'iu':\n\t\t\t# Check bounds\n\t\t\tfor i in index:\n\t\t\t\tself._check_index(i)\n\n\t\t\t# Convert negative indices to positive\n"
+               "\t\t\tisneg = index < 0\n\t\t\tif isneg.any():\n\t\t\t\t# Don't modify input array. np.asarray() may also return a view of memory owned by the\n"
+               "\t\t\t\t# caller (array.array, memoryview, objects implementing __array__), so always copy.\n\t\t\t\tindex = index.copy()\n\t\t\t\tnp.add(index, len(self), out=index, where=isneg)\n\n"
+               "\t\t\treturn self._getitem_int_array(index)\n\n\t\t# Invalid dtype\n\t\telse:\n\t\t\traise IndexError('Index arrays must have integer or boolean data type.')")
+_INT_GUARDED = ("\t\tif index.dtype.kind not in '{kinds}':\n\t\t\traise IndexError('Index arrays must have integer or boolean data type.')\n\n\t\tfor i in index:\n\t\t\tself._check_index(i)\n\n"
+                "\t\tisneg = index < 0\n\t\tif isneg.any():\n\t\t\tindex = index.copy()\n\t\t\tnp.add(index, len(self), out=index, where=isneg)\n\n\t\treturn self._getitem_int_array(index)")
+_CONVERT = ("\t\t# Otherwise assume sequence of ints or bools, use Numpy to figure out array interpretation\n\t\telif not isinstance(index, np.ndarray):\n"
+            "\t\t\t# Special case - if an empty sequence np.asarray won't be able to infer dtype and\n\t\t\t# will default to floats\n\t\t\tif len(index) == 0:\n\t\t\t\tindex = np.empty(0, dtype=int)\n\n"
+            "\t\t\telse:\n\t\t\t\ttry:\n\t\t\t\t\tindex = np.asarray(index)\n\t\t\t\texcept Exception as e:\n\t\t\t\t\traise IndexError('Indices must be integers, slices, or integer or boolean sequences.') from e\n")
+_LAST_RAISE = "\t\telse:\n\t\t\traise IndexError('Index arrays must have integer or boolean data type.')\n"
+_HELPER = ("\n\ndef _to_index_array(index):\n\tif isinstance(index, np.ndarray):\n\t\treturn index\n\tif len(index) == 0:\n\t\treturn np.empty(0, dtype=int)\n"
+           "\ttry:\n\t\treturn np.asarray(index)\n\texcept Exception as e:\n\t\traise IndexError('Indices must be integers, slices, or integer or boolean sequences.') from e\n")
+_SLICE_FAST = "\t\tvalues = self.values[self.bounds[start]:self.bounds[stop]]\n\t\tbounds = self.bounds[start:(stop + 1)] - self.bounds[start]\n"
+_FILL = "\t\tfor i, idx in enumerate(indices):\n\t\t\tnp.copyto(out[i], self._getitem_int(idx), casting='unsafe')\n"
+_SIGEQ = "\treturn len(a1) == len(a2) and all(map(np.array_equal, a1, a2))"
+_EQ = "\t\tif isinstance(other, AbstractSignatureArray):\n\t\t\treturn self.kmerspec == other.kmerspec and sigarray_eq(self, other)\n\t\telse:\n\t\t\treturn NotImplemented\n"
 VARIANTS = [
     V('copy only on identity (the repaired defect)', 'B', _I, "\t\t\t\tindex = index.copy()\n", "\t\t\t\tif index is input_index:\n\t\t\t\t\tindex = index.copy()\n", 'X2',
       also=[(_I, "\tdef __getitem__(self, index):\n", "\tdef __getitem__(self, index):\n\t\tinput_index = index\n")]),
@@ -549,5 +1060,84 @@ VARIANTS = [
     V('mask length not checked', 'B', _I, "\t\t\tif len(index) != len(self):\n\t\t\t\traise IndexError('Length of boolean index array does not match length of sequence.')\n", "", 'X1'),
     V('E: i2 conversion as statement order', 'E', _I, "i2 = i + len(self) if i < 0 else i", "i2 = len(self) + i if i < 0 else i"),
     V('E: stop + 1 commuted', 'E', _B, "self.bounds[start:(stop + 1)]", "self.bounds[start:1 + stop]"),
+    # ---- idioms accepted since the rules speak about values / path conditions instead of statement shapes (each with its broken twin)
+    V('E: slice components checked by one all(...)', 'E', _I, _SLICE_LOOP,
+      "\t\t\tif not all(i is None or isinstance(i, (int, np.integer)) for i in (index.start, index.stop, index.step)):\n\t\t\t\traise TypeError('Slice indices must be integers or None')\n"),
+    V('E: slice components checked by one any(...)', 'E', _I, _SLICE_LOOP,
+      "\t\t\tif any(i is not None and not isinstance(i, (int, np.integer)) for i in [index.start, index.stop, index.step]):\n\t\t\t\traise TypeError('Slice indices must be integers or None')\n"),
+    V('all(...) form rejects None components', 'B', _I, _SLICE_LOOP,
+      "\t\t\tif not all(isinstance(i, (int, np.integer)) for i in (index.start, index.stop, index.step)):\n\t\t\t\traise TypeError('Slice indices must be integers or None')\n", 'X1'),
+    V('all(...) form forgets the step', 'B', _I, _SLICE_LOOP,
+      "\t\t\tif not all(i is None or isinstance(i, (int, np.integer)) for i in (index.start, index.stop)):\n\t\t\t\traise TypeError('Slice indices must be integers or None')\n", 'X1'),
+    V('any(...) form with the test the wrong way round', 'B', _I, _SLICE_LOOP,
+      "\t\t\tif any(i is None or not isinstance(i, (int, np.integer)) for i in [index.start, index.stop, index.step]):\n\t\t\t\traise TypeError('Slice indices must be integers or None')\n", 'X1'),
+    V('E: dtype kind read once into a local', 'E', _I, "\t\t# Boolean array\n\t\tif index.dtype.kind == 'b':", "\t\tkind = index.dtype.kind\n\t\tif kind == 'b':",
+      also=[(_I, "\t\telif index.dtype.kind in 'iu':", "\t\telif kind in 'iu':")]),
+    V('local holds dtype.char instead of the kind', 'B', _I, "\t\t# Boolean array\n\t\tif index.dtype.kind == 'b':", "\t\tkind = index.dtype.char\n\t\tif kind == 'b':", 'X1',
+      also=[(_I, "\t\telif index.dtype.kind in 'iu':", "\t\telif kind in 'iu':")]),
+    V('kind local is stale: index converted to another dtype after it was read', 'B', _I, "\t\tif index.ndim != 1:\n", "\t\tkind = index.dtype.kind\n\t\tindex = index.astype(int)\n\t\tif index.ndim != 1:\n", 'X1',
+      also=[(_I, "\t\t# Boolean array\n\t\tif index.dtype.kind == 'b':", "\t\tif kind == 'b':"), (_I, "\t\telif index.dtype.kind in 'iu':", "\t\telif index.dtype.kind in 'iu':")]),
+    V('E: invalid dtype rejected by a guard clause before the integer branch', 'E', _I, _INT_BRANCH, _INT_GUARDED.format(kinds='iu')),
+    V('guard clause lets float arrays through to the integer branch', 'B', _I, _INT_BRANCH, _INT_GUARDED.format(kinds='iuf'), 'X1'),
+    V('guard-clause integer branch without the element bounds check', 'B', _I, _INT_BRANCH, _INT_GUARDED.format(kinds='iu').replace("\t\tfor i in index:\n\t\t\tself._check_index(i)\n", ""), 'X1'),
+    V('E: array conversion extracted into a module-level helper with early returns and try/return', 'E', _I, _CONVERT, "\t\tindex = _to_index_array(index)\n",
+      also=[(_I, _LAST_RAISE, _LAST_RAISE + _HELPER)]),
+    V('extracted conversion helper loses the empty-sequence case', 'B', _I, _CONVERT, "\t\tindex = _to_index_array(index)\n", 'X1',
+      also=[(_I, _LAST_RAISE, _LAST_RAISE + _HELPER.replace("\tif len(index) == 0:\n\t\treturn np.empty(0, dtype=int)\n", ""))]),
+    V('extracted conversion helper lets the conversion error escape', 'B', _I, _CONVERT, "\t\tindex = _to_index_array(index)\n", 'X1',
+      also=[(_I, _LAST_RAISE, _LAST_RAISE + _HELPER.replace("\ttry:\n\t\treturn np.asarray(index)\n\texcept Exception as e:\n\t\traise IndexError('Indices must be integers, slices, or integer or boolean sequences.') from e\n", "\treturn np.asarray(index)\n"))]),
+    V('E: _check_index reads len(self) once and names the sign test', 'E', _I, "\t\ti2 = i + len(self) if i < 0 else i\n\t\tif not 0 <= i2 < len(self):", "\t\tisneg = i < 0\n\t\tn = len(self)\n\t\ti2 = i + n if isneg else i\n\t\tif not 0 <= i2 < n:"),
+    V('_check_index named sign test includes zero', 'B', _I, "\t\ti2 = i + len(self) if i < 0 else i\n\t\tif not 0 <= i2 < len(self):", "\t\tisneg = i <= 0\n\t\tn = len(self)\n\t\ti2 = i + n if isneg else i\n\t\tif not 0 <= i2 < n:", 'X3'),
+    V('_check_index length local off by one', 'B', _I, "\t\ti2 = i + len(self) if i < 0 else i\n\t\tif not 0 <= i2 < len(self):", "\t\tn = len(self) + 1\n\t\ti2 = i + len(self) if i < 0 else i\n\t\tif not 0 <= i2 < n:", 'X3'),
+    V('_check_index bound local rebound between definition and test', 'B', _I, "\t\ti2 = i + len(self) if i < 0 else i\n\t\tif not 0 <= i2 < len(self):", "\t\tn = len(self)\n\t\ti2 = i + n if i < 0 else i\n\t\tn = n + 1\n\t\tif not 0 <= i2 < n:", 'X3'),
+    V('E: slice offset read once', 'E', _B, _SLICE_FAST,
+      "\t\toffset = self.bounds[start]\n\t\tvalues = self.values[offset:self.bounds[stop]]\n\t\tbounds = self.bounds[start:(stop + 1)] - offset\n"),
+    V('slice offset local taken at stop', 'B', _B, _SLICE_FAST,
+      "\t\toffset = self.bounds[stop]\n\t\tvalues = self.values[self.bounds[start]:offset]\n\t\tbounds = self.bounds[start:(stop + 1)] - offset\n", 'X4'),
+    V('E: bounds section read once, values delimited by its ends', 'E', _B, _SLICE_FAST,
+      "\t\tsection = self.bounds[start:(stop + 1)]\n\t\tvalues = self.values[section[0]:section[-1]]\n\t\tbounds = section - section[0]\n"),
+    V('bounds section one short: values end at bounds[stop - 1]', 'B', _B, _SLICE_FAST,
+      "\t\tsection = self.bounds[start:stop]\n\t\tvalues = self.values[section[0]:section[-1]]\n\t\tbounds = section - section[0]\n", 'X4'),
+    V('bounds section rebased on its last element', 'B', _B, _SLICE_FAST,
+      "\t\tsection = self.bounds[start:(stop + 1)]\n\t\tvalues = self.values[section[0]:section[-1]]\n\t\tbounds = section - section[-1]\n", 'X4'),
+    V('section ends used although the fast path admits empty slices', 'B', _B, _SLICE_FAST,
+      "\t\tsection = self.bounds[start:(stop + 1)]\n\t\tvalues = self.values[section[0]:section[-1]]\n\t\tbounds = section - section[0]\n", 'X4',
+      also=[(_B, "if step != 1 or stop <= start:", "if step != 1 or stop < start:")]),
+    V('section ends read before the empty-slice guard (raises IndexError on empty slices)', 'B', _B, "\t\tif step != 1 or stop <= start:\n\t\t\treturn super()._getitem_slice(s)\n\n" + _SLICE_FAST,
+      "\t\tsection = self.bounds[start:(stop + 1)]\n\t\tvalues = self.values[section[0]:section[-1]]\n\t\tif step != 1 or stop <= start:\n\t\t\treturn super()._getitem_slice(s)\n\n\t\tbounds = section - section[0]\n", 'X4'),
+    V('E: slice offset read before the guard', 'E', _B, "\t\tif step != 1 or stop <= start:\n\t\t\treturn super()._getitem_slice(s)\n\n" + _SLICE_FAST,
+      "\t\toffset = self.bounds[start]\n\t\tif step != 1 or stop <= start:\n\t\t\treturn super()._getitem_slice(s)\n\n\t\tvalues = self.values[offset:self.bounds[stop]]\n\t\tbounds = self.bounds[start:(stop + 1)] - offset\n"),
+    V('E: sizes list bound to a local', 'E', _B, "\t\tout = SignatureArray.uninitialized([self.sizeof(i) for i in indices], self.kmerspec, dtype=self.values.dtype)",
+      "\t\tsizes = [self.sizeof(i) for i in indices]\n\t\tout = SignatureArray.uninitialized(sizes, self.kmerspec, dtype=self.values.dtype)"),
+    V('sizes local computed in sorted order', 'B', _B, "\t\tout = SignatureArray.uninitialized([self.sizeof(i) for i in indices], self.kmerspec, dtype=self.values.dtype)",
+      "\t\tsizes = [self.sizeof(i) for i in sorted(indices)]\n\t\tout = SignatureArray.uninitialized(sizes, self.kmerspec, dtype=self.values.dtype)", 'X5'),
+    V('E: fill loop zips the result slots with the indices', 'E', _B, _FILL, "\t\tfor dest, idx in zip(out, indices):\n\t\t\tnp.copyto(dest, self._getitem_int(idx), casting='unsafe')\n"),
+    V('zip fill loop pairs slots with the sorted indices', 'B', _B, _FILL, "\t\tfor dest, idx in zip(out, sorted(indices)):\n\t\t\tnp.copyto(dest, self._getitem_int(idx), casting='unsafe')\n", 'X5'),
+    V('zip fill loop starts at the second slot', 'B', _B, _FILL, "\t\tfor dest, idx in zip(out[1:], indices):\n\t\t\tnp.copyto(dest, self._getitem_int(idx), casting='unsafe')\n", 'X5'),
+    V('E: fill loop writes each section of the result values directly', 'E', _B, _FILL,
+      "\t\tfor idx, begin, end in zip(indices, out.bounds[:-1], out.bounds[1:]):\n\t\t\tnp.copyto(out.values[begin:end], self._getitem_int(idx), casting='unsafe')\n"),
+    V('E: section fill loop by position', 'E', _B, _FILL,
+      "\t\tfor k in range(len(indices)):\n\t\t\tnp.copyto(out.values[out.bounds[k]:out.bounds[k + 1]], self._getitem_int(indices[k]), casting='unsafe')\n"),
+    V('section fill loop with begin / end crossed', 'B', _B, _FILL,
+      "\t\tfor idx, end, begin in zip(indices, out.bounds[:-1], out.bounds[1:]):\n\t\t\tnp.copyto(out.values[begin:end], self._getitem_int(idx), casting='unsafe')\n", 'X5'),
+    V('section fill loop shifted by one bound', 'B', _B, _FILL,
+      "\t\tfor idx, begin, end in zip(indices, out.bounds[1:], out.bounds[2:]):\n\t\t\tnp.copyto(out.values[begin:end], self._getitem_int(idx), casting='unsafe')\n", 'X5'),
+    V('positional fill loop stops one short', 'B', _B, _FILL,
+      "\t\tfor k in range(len(indices) - 1):\n\t\t\tnp.copyto(out[k], self._getitem_int(indices[k]), casting='unsafe')\n", 'X5'),
+    V('E: sigarray_eq as length guard plus loop with early return', 'E', _B, _SIGEQ,
+      "\tif len(a1) != len(a2):\n\t\treturn False\n\n\tfor sig1, sig2 in zip(a1, a2):\n\t\tif not np.array_equal(sig1, sig2):\n\t\t\treturn False\n\n\treturn True"),
+    V('E: sigarray_eq with a generator expression', 'E', _B, _SIGEQ, "\treturn len(a1) == len(a2) and all(np.array_equal(x, y) for x, y in zip(a1, a2))"),
+    V('loop form of sigarray_eq without the length guard', 'B', _B, _SIGEQ,
+      "\tfor sig1, sig2 in zip(a1, a2):\n\t\tif not np.array_equal(sig1, sig2):\n\t\t\treturn False\n\n\treturn True", 'X7'),
+    V('loop form of sigarray_eq returns False on the first EQUAL pair', 'B', _B, _SIGEQ,
+      "\tif len(a1) != len(a2):\n\t\treturn False\n\n\tfor sig1, sig2 in zip(a1, a2):\n\t\tif np.array_equal(sig1, sig2):\n\t\t\treturn False\n\n\treturn True", 'X7'),
+    V('loop form of sigarray_eq compares a signature with itself', 'B', _B, _SIGEQ,
+      "\tif len(a1) != len(a2):\n\t\treturn False\n\n\tfor sig1, sig2 in zip(a1, a1):\n\t\tif not np.array_equal(sig1, sig2):\n\t\t\treturn False\n\n\treturn True", 'X7'),
+    V('loop form of sigarray_eq checks the length last', 'B', _B, _SIGEQ,
+      "\tfor sig1, sig2 in zip(a1, a2):\n\t\tif not np.array_equal(sig1, sig2):\n\t\t\treturn False\n\n\treturn len(a1) == len(a2)", 'X7'),
+    V('E: __eq__ with a NotImplemented guard clause', 'E', _B, _EQ,
+      "\t\tif not isinstance(other, AbstractSignatureArray):\n\t\t\treturn NotImplemented\n\n\t\treturn self.kmerspec == other.kmerspec and sigarray_eq(self, other)\n"),
+    V('guard-clause __eq__ drops the kmerspec comparison', 'B', _B, _EQ,
+      "\t\tif not isinstance(other, AbstractSignatureArray):\n\t\t\treturn NotImplemented\n\n\t\treturn sigarray_eq(self, other)\n", 'X7'),
     V('E: out-of-place conversion', 'E', _I, "\t\t\t\tindex = index.copy()\n\t\t\t\tnp.add(index, len(self), out=index, where=isneg)\n", "\t\t\t\tindex = np.where(isneg, index + len(self), index)\n"),
 ]
